@@ -184,7 +184,10 @@ def drainLoop (m : Machine) (env : GEnv) : Nat → St → St
     match s.queue with
     | [] => s
     | e :: rest =>
-      let s := processEvent hooksFlagged .sync m env e { s with queue := rest }
+      -- a machine that completed / failed / stopped processes nothing further
+      if s.status ≠ "running" then { s with queue := [] } else
+      -- `on_event_received` plugins see every dequeued event
+      let s := processEvent hooksFlagged .sync m env e (emit ("#recv:" ++ e.type) { s with queue := rest })
       let s := transientLoop hooksFlagged .sync m env m.maxIterations s
       if s.err.isSome then s else drainLoop m env budget s
 
@@ -223,7 +226,7 @@ def asyncStep (m : Machine) (env : GEnv) (e : Ev) (s : St) : St :=
   if s.raiseDepth > m.maxIterations then { s with raiseDepth := 0 }        -- chain broken: event dropped
   else
     let before := s.raiseDepth
-    let s1 := processEvent hooksAsync .async m env e s
+    let s1 := processEvent hooksAsync .async m env e (emit ("#recv:" ++ e.type) s)
     let s2 := transientLoop hooksAsync .async m env m.maxIterations s1
     if s2.err.isSome then { s2 with err := none, errors := s2.errors + 1 }
     else if s2.raiseDepth = before then { s2 with raiseDepth := 0 } else s2
